@@ -287,8 +287,8 @@ package htlcswitch
 //@   loop * havoc
 //@   site call DeleteCircuits: assert len(arg(1)) == 1 && (typeis(pkt.htlc, *lnwire.UpdateFulfillHTLC) || typeis(pkt.htlc, *lnwire.UpdateFailHTLC))
 //@   site call inKey: assert arg(0) == pkt
-//@   // the key handed to DeleteCircuits is the second inKey() of the function (the first feeds the log line)
-//@   site call inKey nth 1: assert arg(0) == pkt
+//@   // the key handed to DeleteCircuits is the one numbered inKey() call (the call in the log line is not numbered)
+//@   site call inKey nth 0: assert arg(0) == pkt
 //@   ensures result == nil ==> called(DeleteCircuits) && ret(DeleteCircuits) == nil
 //@
 //@ func (p *htlcPacket) inKey
